@@ -16,6 +16,10 @@ CHECKS = {
  "C18": dict(engine="K", technique=K_TECH,
    text="Bounded model checking of Datagram::{new,encode,decode} and impl Buf for EncodedDatagram: every client-bidi stream id (all q<2^60), payload lengths 0..3 (quick) / 0..8 (thorough) with symbolic bytes, every consumption pattern of up to 4 advance steps with symbolic amounts, and decode of every byte string of length 0..9.",
    note="Instantiation B=&[u8]. Payloads longer than 8 bytes are outside the claim (the code never inspects payload bytes). DatagramSender/Reader (async) not covered. " + K_TRUST, ref="DESIGN.md §5 C18"),
+ "C19": dict(engine="K", technique=K_TECH,
+   text="Bounded model checking of the session-id codec path: SessionId::from(StreamId) is the identity on the raw id for every id < 2^62; the stream headers written by UniStreamHeader::WebTransportUni / BidiStreamHeader::WebTransportBidi are varint(0x54|0x41) ++ varint(CONNECT stream id) for every id; Frame::decode of 0x41 ++ varint(x) yields WebTransportStream(x) consuming exactly the header for every x, every varint form of x and of the type, and every truncation position (Incomplete, never a frame).",
+   note="Not claimed: byte-exact hand-over of payload buffered behind the header (needs BufList<Bytes>, which CBMC cannot execute), the session object of h3-webtransport (Mutex, async), gating of WebTransport uni streams on the configuration. Instantiations: BufMut=&mut [u8], Buf=KBuf (contiguous slice reader, kani/src/kbuf.rs). " + K_TRUST, ref="DESIGN.md §5 C19"),
+ # --- more checks are appended above this line ---
 }
 
 NA = {
